@@ -1,6 +1,5 @@
 CONSTANTS NF = 2  MaxF = 2  MaxT = 2  Remotes = {1, 2}  Parents = {1, 2}
-          MaxDOps = 3  MinDOps = 0  MaxPolls = 2  MaxROps = 2  MaxHeld = 2  Mut = "none"
+          MaxDOps = 3  MinDOps = 0  MaxPolls = 2  MaxROps = 2  MaxHeld = 2  Mut = "none"  RecordHist = FALSE
 SPECIFICATION Spec
-VIEW view
 INVARIANT TypeOK JudgeOkP EndOkP RcExact
 CHECK_DEADLOCK FALSE
